@@ -120,6 +120,7 @@ class Engine:
         s.cfg_cache = {}
         s._method_index = None
         s._resolve_cache = {}
+        s._promoted = {}
         s.trace = False
         s.cur_fn = None
         global NAMER
@@ -400,6 +401,16 @@ class Engine:
             m = re.match(r'\{alloc(\d+): (.*)\}$', t)
             if m: return s.static_ref(fn.crate, int(m.group(1)), m.group(2))
         if t in s.KNOWN_CONSTS: return s.KNOWN_CONSTS[t]
+        if '::promoted[' in t:
+            key = (fn.crate, t)
+            if key not in s._promoted:
+                pf = s.mir.fns.get(key)
+                if pf is None: raise Abort('promoted constant not in dump: ' + t)
+                stack, s.stack = s.stack, []
+                try: rs, rv = s.call_fn(pf, State(True, {}), [])
+                finally: s.stack = stack
+                s._promoted[key] = rv
+            return s._promoted[key]
         m = re.match(r'(.*) \{\{\s*\}\}$', t)
         if m: return T([], s.norm_type(fn.crate, m.group(1)))
         if t.startswith('std::ops::RangeFull'): return T([], 'std::ops::RangeFull')
@@ -686,6 +697,9 @@ class Engine:
         if rs is None: return None, None
         rv = rs.m.get((fid, 0), UNIT)
         m = rs.m
+        if isinstance(rv, P) and rv.fid == fid:      # promoted constant: reference to its own temporary
+            tv = s.read(rs, ('mem', rv.fid, rv.loc, list(rv.proj)))
+            rv = tv if isinstance(tv, (S, V)) else PV(tv)
         for k in [k for k in m if k[0] == fid]: del m[k]
         return rs, rv
 
